@@ -15,11 +15,13 @@ import (
 	"os"
 	"path/filepath"
 	"runtime/pprof"
+	"strings"
 	"sync"
 	"time"
 
 	"com.tuntun.rangers/node/src/core"
 	"com.tuntun.rangers/node/src/middleware/db"
+	"com.tuntun.rangers/node/src/middleware/log"
 	"com.tuntun.rangers/node/src/middleware/types"
 	"verif/harness/internal/vutil"
 )
@@ -39,6 +41,7 @@ type op struct {
 	// Conc: AddGroup(G, Pre) overlaps with B (an add or a removal); First = whose locked section runs first
 	B     *opB   `json:"b,omitempty"`
 	First string `json:"first,omitempty"`
+	J     int    `json:"j,omitempty"` // ConcFork: fork groups added before the overlapping add's locked section
 }
 
 type opB struct {
@@ -360,6 +363,8 @@ func runOp(o op) (ev map[string]interface{}, skipped bool) {
 		ev = map[string]interface{}{"event": "Conc", "g": o.G, "pre": o.Pre, "b": o.B, "first": o.First}
 		okA, okB := concurrent(o)
 		ev["okA"], ev["okB"] = okA, okB
+	case "ConcFork":
+		ev = concFork(o)
 	case "Restart":
 		core.VerifCloseGroupChain()
 		core.VerifInitGroupChain(helper)
@@ -369,6 +374,136 @@ func runOp(o op) (ev map[string]interface{}, skipped bool) {
 	}
 	return ev, false
 }
+
+// concFork runs a group fork switch and, when the switch removes at least two groups, holds it
+// right after its first removal (the switch logs every removal; hook export VerifWrapSyncLogger) while another goroutine calls AddGroup(B.G) naming the group that is the last one at that moment.
+// Mode "lock" (First = "lock"): the call goes on to chain.lock right away; removeFromCommonAncestor
+// holds it over all removals, so the call cannot return before the hold ends (released when the
+// call returns or after 40 ms); where it gets the lock afterwards is the scheduler's choice.
+// Mode "park" (First = "park"): the call, past its unlocked id check, is parked inside
+// consensusHelper.CheckGroup and released when the switch has added J of its groups and is inside
+// CheckGroup for the next one (or has ended); the switch waits there until the call has returned.
+func concFork(o op) map[string]interface{} {
+	gc := core.GetGroupChain()
+	ev := map[string]interface{}{"event": "Fork", "g": o.G, "ids": o.Ids, "pres": presOf(o), "ok": false}
+	anc := gc.GetGroupById(idOf(o.G))
+	if anc == nil || o.B == nil {
+		return ev
+	}
+	branch := []*types.Group{}
+	pre := anc.Id
+	for k, i := range o.Ids {
+		if k < len(o.Pres) && o.Pres[k] != 98 {
+			pre = idOf(o.Pres[k])
+		}
+		g := mkGroup(i, pre)
+		branch = append(branch, g)
+		pre = g.Id
+	}
+	park := o.First == "park"
+	c0 := gc.Count()
+	placed := false
+	var okA bool
+	var ga *types.Group
+	aPre := none
+	doneA := make(chan struct{})
+	reachedA := make(chan struct{}, 1)
+	gateA := make(chan struct{})
+	released := false
+	release := func() {
+		if !released {
+			released = true
+			close(gateA)
+			select {
+			case <-doneA:
+			case <-time.After(20 * time.Second):
+				vutil.Fatalf("parked AddGroup did not return")
+			}
+		}
+	}
+	if park {
+		helper.CheckGroupFn = func(g *types.Group) (bool, error) {
+			if g == ga {
+				reachedA <- struct{}{}
+				<-gateA
+				return true, nil
+			}
+			if placed {
+				for k, i := range o.Ids {
+					if bytes.Equal(g.Id, idOf(i)) && k == o.J {
+						release()
+					}
+				}
+			}
+			return true, nil
+		}
+		defer func() { helper.CheckGroupFn = nil }()
+	}
+	// the scheduling point: the switch logs "Remove local group ..." after every removal
+	pause := func() {
+		if placed || gc.Count() != c0-1 {
+			return
+		}
+		placed = true
+		aPre = indexOf(gc.LastGroup().Id)
+		ga = mkGroup(o.B.G, idOf(aPre))
+		go func() {
+			okA = gc.AddGroup(ga) == nil
+			close(doneA)
+		}()
+		if park {
+			select {
+			case <-reachedA:
+			case <-doneA: // refused by the unlocked id check
+				released = true
+			case <-time.After(20 * time.Second):
+				vutil.Fatalf("AddGroup neither parked nor returned")
+			}
+			return
+		}
+		select {
+		case <-doneA:
+		case <-time.After(40 * time.Millisecond):
+		}
+	}
+	var orig log.Logger
+	core.VerifWrapSyncLogger(func(l log.Logger) log.Logger {
+		orig = l
+		return &pausingLogger{Logger: l, at: "Remove local group", f: pause}
+	})
+	ok := core.VerifGroupForkSwitch(anc, branch)
+	core.VerifWrapSyncLogger(func(log.Logger) log.Logger { return orig })
+	ev["ok"] = ok
+	if !placed {
+		return ev // fewer than two removals: an ordinary fork switch
+	}
+	if park {
+		release()
+	}
+	<-doneA
+	concForkPlaced++
+	ev["event"] = "ConcFork"
+	ev["mode"] = o.First
+	ev["j"] = o.J
+	ev["a"] = map[string]interface{}{"g": o.B.G, "pre": aPre}
+	ev["okA"] = okA
+	return ev
+}
+
+type pausingLogger struct {
+	log.Logger
+	at string
+	f  func()
+}
+
+func (p *pausingLogger) Debugf(format string, params ...interface{}) {
+	p.Logger.Debugf(format, params...)
+	if strings.HasPrefix(format, p.at) {
+		p.f()
+	}
+}
+
+var concForkPlaced int
 
 type crashNow struct{}
 
@@ -530,5 +665,5 @@ func main() {
 		}
 	}
 	tr.Close()
-	fmt.Printf("c19: histories=%d calls=%d crashes=%d events=%d\n", len(histories), calls, crashes, tr.N)
+	fmt.Printf("c19: histories=%d calls=%d crashes=%d placed=%d events=%d\n", len(histories), calls, crashes, concForkPlaced, tr.N)
 }
